@@ -268,6 +268,17 @@ def describe(v) -> str:
     return repr(v)
 
 
+def _value_bool_to_ite(t: T) -> T:
+    """`a and b` used as a value is `b if a else a`; `a or b` is `a if a else b`."""
+    if t.op == "bool" and len(t.a[1]) >= 2:
+        first, rest = t.a[1][0], t.a[1][1:]
+        tail = _value_bool_to_ite(rest[0] if len(rest) == 1 else T("bool", (t.a[0], rest)))
+        return T("ite", (first, tail, first)) if t.a[0] == "and" else T("ite", (first, first, tail))
+    if t.op == "ite":
+        return T("ite", (t.a[0], _value_bool_to_ite(t.a[1]), _value_bool_to_ite(t.a[2])))
+    return t
+
+
 def kevent_fields(repo: Repo):
     node = repo.constant("kevent", "Kevent")
     if not (isinstance(node, ast.Call) and repo.dotted(repo.module("kevent"), node.func) == "collections.namedtuple"
@@ -384,7 +395,7 @@ def check(repo: Repo, run: Run) -> None:
                    f"(a table, cache or other state decides the value for some records)",
                    facts={"term": sym.pretty(bound[name])[:200]})
             continue
-        leaves = normal.guarded_leaves(bound[name])
+        leaves = normal.guarded_leaves(_value_bool_to_ite(bound[name]))
         if len(leaves) > 1:
             # a conditional value: every alternative must be the field itself, otherwise the field also depends on whatever
             # the condition reads
@@ -472,7 +483,10 @@ def check(repo: Repo, run: Run) -> None:
         nm = f.a[0] if f.op in ("global", "builtin") else sym.pretty(f)
         if nm == "int.from_bytes" or (c.func.op == "attr" and c.func.a[1] == "from_bytes"):
             nm = "int.from_bytes"
-        ok = nm in allowed_calls or nm.endswith("kevent.Kevent") or nm in ("tuple", "list", "int", "bytes")
+        # a helper of the package that was interpreted in place (its result is not an opaque call) adds nothing of its
+        # own: the operations inside it are recorded, and judged, as the caller's
+        inlined = f.op == "func" and c.result is not None and not (c.result.op == "call" and c.result.a[0] == f)
+        ok = nm in allowed_calls or nm.endswith("kevent.Kevent") or nm in ("tuple", "list", "int", "bytes") or inlined
         run.ob("R4", MOD, "from_kd_buf", f"call {nm}", ok,
                "" if ok else f"from_kd_buf calls {nm}, which is outside the total decoding operations",
                nontrivial=False, line=c.lineno)
